@@ -428,7 +428,8 @@ Proof.
   assert (Hm : map fst m = o_terms A f).
   { unfold aseg_dict in E. destruct (o_terms A f) as [|t0 ts].
     - destruct (nofst f); [discriminate|]. injection E as <-. reflexivity.
-    - injection E as <-. rewrite map_map. cbn [fst]. apply map_id. }
+    - injection E as <-. change (map fst (map (fun t => (t, aseg_val A use1 f t)) (t0 :: ts)) = t0 :: ts).
+      rewrite map_map. cbn [fst]. apply map_id. }
   split; [exact Hm|]. rewrite Hm. apply o_terms_sorted.
 Qed.
 
@@ -610,3 +611,414 @@ Proof.
   exists [([97], Some [([120], V1Hit 7 1)])], [([], [120]); ([97], [120])].
   vm_compute. repeat split; reflexivity.
 Qed.
+
+(* ------------------------------------------------------------------ *)
+(* examples for (A)                                                    *)
+(* ------------------------------------------------------------------ *)
+
+Module DocsMatchingModelExample.
+  Import DocsMatchingExample.   (* seg: 3 documents, fields _id, a, b *)
+
+  (* 1-hit values wherever a term has one posting; field _id (no terms) without FST *)
+  Definition dicts1 : seg_dicts := dicts_of_aseg seg (fun _ _ => true) (fun _ => true).
+  (* general values only; every field has an FST *)
+  Definition dicts0 : seg_dicts := dicts_of_aseg seg (fun _ _ => false) (fun _ => false).
+
+  Definition query : list (bytes * bytes) :=
+    [(fz, tx); (fb, tx); (fa, tx); ([], tx); (fa, tq); (id_name, tx); (fa, tx); (fb, tw)].
+
+  Example dicts1_shape :
+    dicts1 = [ (id_name, None);
+               (fa, Some [(tx, VGen [0; 2]); (ty, VGen [1; 2])]);
+               (fb, Some [(tw, VGen [0; 2]); (tx, VGen [2])]) ].
+  Proof. vm_compute. reflexivity. Qed.
+
+  (* unknown field first, the empty field name, an unknown term, a field
+     without FST, a repeated pair, field switches *)
+  Example run1 : docs_matching dicts1 (fun _ => false) query = Ok [0; 2].
+  Proof. vm_compute. reflexivity. Qed.
+  Example run0 : docs_matching dicts0 (fun _ => false) query = Ok [0; 2].
+  Proof. vm_compute. reflexivity. Qed.
+  Example run_spec : Ok (o_docsmatching seg query) = docs_matching dicts1 (fun _ => false) query.
+  Proof. vm_compute. reflexivity. Qed.
+
+  (* the storage of field b fails: Err although (a, x) was already Or-ed in;
+     a failing field that is not listed, or has no FST, does not matter *)
+  Example run_err : docs_matching dicts1 (fun f => beq f fb) [(fa, tx); (fb, tx)] = Err.
+  Proof. vm_compute. reflexivity. Qed.
+  Example run_err_unlisted : docs_matching dicts1 (fun f => beq f fb) [(fa, tx); (fa, ty)] = Ok [0; 1; 2].
+  Proof. vm_compute. reflexivity. Qed.
+  Example run_err_nofst : docs_matching dicts1 (fun _ => true) [(id_name, tx); (fz, tx)] = Ok [].
+  Proof. vm_compute. reflexivity. Qed.
+
+  (* the pinned code on the same query *)
+  Example run_prefix : docs_matching_prefix dicts1 (fun _ => false) query = Panic.
+  Proof. vm_compute. reflexivity. Qed.
+  (* ... is fine as long as every field is known *)
+  Example run_prefix_known :
+    docs_matching_prefix dicts1 (fun _ => false) [(fb, tx); (fa, tx); (id_name, tx)] = Ok [0; 2].
+  Proof. vm_compute. reflexivity. Qed.
+
+  (* a segment whose FST holds 1-hit values *)
+  Definition dicts_1hit : seg_dicts :=
+    [ (fa, Some [(tq, V1Hit 5 1065353216); (tx, VGen [3; 1; 3]); (ty, V1Hit 9 0)]) ].
+  Example run_1hit :
+    docs_matching dicts_1hit (fun _ => false) [(fa, tx); (fa, tq); (fa, tx)] = Ok [1; 3; 5].
+  Proof. vm_compute. reflexivity. Qed.
+  (* a 1-hit value with norm bits 0 is invisible to OrInto (normBits1Hit != 0 test):
+     the reason for [dicts_wf] in docs_matching_correct *)
+  Example run_1hit_norm0 :
+    docs_matching dicts_1hit (fun _ => false) [(fa, ty)] = Ok [] /\ dicts_wf dicts_1hit = false.
+  Proof. vm_compute. split; reflexivity. Qed.
+
+  (* a segment without fields *)
+  Example run_nofields : docs_matching [] (fun _ => true) query = Ok [].
+  Proof. vm_compute. reflexivity. Qed.
+End DocsMatchingModelExample.
+
+(* ================================================================== *)
+(* (B) Segment.dictionary: the mutex and the FST cache                 *)
+(* ================================================================== *)
+
+Section DictionaryProofs.
+  Variable F : N -> N.
+  Variable loads_ok : N -> bool.
+
+  (* the cache only holds entries (id, F id) of FSTs that loaded *)
+  Definition cache_inv (c : list (N * N)) : Prop :=
+    Forall (fun p => snd p = F (fst p) /\ loads_ok (fst p) = true) c.
+
+  Lemma fsts_get_inv (c : list (N * N)) (k v : N) :
+    cache_inv c -> fsts_get c k = Some v -> v = F k /\ loads_ok k = true.
+  Proof.
+    unfold cache_inv. induction c as [|[k' v'] c IH]; cbn [fsts_get]; intros Hc Hg.
+    - discriminate Hg.
+    - inversion Hc as [|x l Hx Hl]; subst. cbn [fst snd] in Hx.
+      destruct (k' =? k) eqn:E.
+      + apply N.eqb_eq in E. subst k'. injection Hg as <-. exact Hx.
+      + apply IH; assumption.
+  Qed.
+
+  Lemma fsts_set_inv (c : list (N * N)) (k : N) :
+    cache_inv c -> loads_ok k = true -> cache_inv (fsts_set c k (F k)).
+  Proof.
+    unfold cache_inv, fsts_set. intros Hc Hk. constructor.
+    - cbn [fst snd]. split; [reflexivity | exact Hk].
+    - rewrite Forall_forall in *. intros p Hp. apply filter_In in Hp. apply Hc, Hp.
+  Qed.
+
+  Lemma fsts_get_filter_other (c : list (N * N)) (id k : N) :
+    k <> id -> fsts_get (filter (fun p => negb (fst p =? id)) c) k = fsts_get c k.
+  Proof.
+    intros Hne. induction c as [|[k' v'] c IH]; cbn [filter fsts_get fst]; [reflexivity|].
+    destruct (k' =? id) eqn:E1; cbn [negb].
+    - apply N.eqb_eq in E1. subst k'.
+      destruct (id =? k) eqn:E2; [apply N.eqb_eq in E2; congruence | exact IH].
+    - cbn [fsts_get]. destruct (k' =? k); [reflexivity | exact IH].
+  Qed.
+
+  Lemma fsts_get_set_same (c : list (N * N)) (k v : N) : fsts_get (fsts_set c k v) k = Some v.
+  Proof. unfold fsts_set. cbn [fsts_get]. rewrite N.eqb_refl. reflexivity. Qed.
+
+  Lemma fsts_get_set_other (c : list (N * N)) (id v k : N) :
+    k <> id -> fsts_get (fsts_set c id v) k = fsts_get c k.
+  Proof.
+    intros Hne. unfold fsts_set. cbn [fsts_get].
+    destruct (id =? k) eqn:E; [apply N.eqb_eq in E; congruence|].
+    apply fsts_get_filter_other, Hne.
+  Qed.
+
+  (* what one call may return *)
+  Definition call_ok (c : N * bool) (r : result (option N)) : Prop :=
+    r = Err \/ (snd c = true /\ r = Ok (Some (F (fst c)))) \/ (snd c = false /\ r = Ok None).
+
+  (* ---- B1, one call ---- *)
+  Lemma dictionary_call_spec (ok : nat -> bool) (st : dstate) (id : N) (hd : bool) :
+    locked st = false -> cache_inv (cache st) ->
+    forall st' r, dictionary_call F loads_ok ok st id hd = (st', r) ->
+      locked st' = false /\
+      cache_inv (cache st') /\
+      call_ok (id, hd) r /\
+      (forall k v, fsts_get (cache st) k = Some v -> fsts_get (cache st') k = Some v) /\
+      (hd = true -> r <> Err -> fsts_get (cache st') id = Some (F id)) /\
+      (nreads st <= nreads st')%nat.
+  Proof.
+    intros Hl Hc st' r. unfold dictionary_call, dictionary_gen, call_ok. cbn [fst snd].
+    destruct hd.
+    2:{ intros E. injection E as <- <-.
+        repeat split; auto. discriminate. }
+    rewrite Hl. cbn [ds_lock cache nreads].
+    destruct (fsts_get (cache st) id) as [v|] eqn:Eg.
+    - intros E. injection E as <- <-.
+      cbn [ds_lock ds_read ds_unlock locked cache nreads].
+      destruct (fsts_get_inv _ _ _ Hc Eg) as [-> _].
+      repeat split; auto.
+    - cbn [ds_lock ds_read ds_unlock ds_store locked cache nreads].
+      destruct (ok (nreads st)); cbn [negb].
+      2:{ intros E. injection E as <- <-.
+          cbn [ds_lock ds_read ds_unlock locked cache nreads].
+          repeat split; auto; try lia. intros _ H; contradiction H; reflexivity. }
+      destruct (ok (S (nreads st))); cbn [negb].
+      2:{ intros E. injection E as <- <-.
+          cbn [ds_lock ds_read ds_unlock locked cache nreads].
+          repeat split; auto; try lia. intros _ H; contradiction H; reflexivity. }
+      destruct (loads_ok id) eqn:Eld; cbn [negb].
+      2:{ intros E. injection E as <- <-.
+          cbn [ds_lock ds_read ds_unlock locked cache nreads].
+          repeat split; auto; try lia. intros _ H; contradiction H; reflexivity. }
+      intros E. injection E as <- <-.
+      cbn [ds_lock ds_read ds_unlock ds_store locked cache nreads].
+      repeat split; auto; try lia.
+      + apply fsts_set_inv; assumption.
+      + intros k v Hk. rewrite fsts_get_set_other; [exact Hk|].
+        intros ->. rewrite Eg in Hk. discriminate Hk.
+      + intros _ _. apply fsts_get_set_same.
+  Qed.
+
+  (* a call on a cached field: no storage read, no change of state, success -
+     whatever the oracle says *)
+  Theorem cached_call_no_read (ok : nat -> bool) (st : dstate) (id v : N) :
+    locked st = false -> cache_inv (cache st) ->
+    fsts_get (cache st) id = Some v ->
+    dictionary_call F loads_ok ok st id true = (st, Ok (Some (F id))).
+  Proof.
+    intros Hl Hc Hg. unfold dictionary_call, dictionary_gen.
+    rewrite Hl. cbn [ds_lock cache]. rewrite Hg.
+    destruct (fsts_get_inv _ _ _ Hc Hg) as [-> _].
+    destruct st as [l c n]. cbn in Hl. subst l. reflexivity.
+  Qed.
+
+  (* ---- B1, sequences of calls ---- *)
+
+  (* the state after a sequence of calls *)
+  Definition final_state (st : dstate) (tr : list (dstate * result (option N))) : dstate :=
+    last (map fst tr) st.
+
+  Lemma last_cons {X} (l : list X) (a d : X) : last (a :: l) d = last l a.
+  Proof.
+    revert a d. induction l as [|b l IH]; intros a d; [reflexivity|].
+    change (last (a :: b :: l) d) with (last (b :: l) d). rewrite !IH. reflexivity.
+  Qed.
+
+  Lemma final_state_cons (st : dstate) (x : dstate * result (option N))
+        (tr : list (dstate * result (option N))) :
+    final_state st (x :: tr) = final_state (fst x) tr.
+  Proof. unfold final_state. cbn [map]. apply last_cons. Qed.
+
+  Definition step_ok (sr : dstate * result (option N)) : Prop :=
+    locked (fst sr) = false /\ cache_inv (cache (fst sr)) /\
+    snd sr <> Block /\ snd sr <> Panic /\ snd sr <> OutOfFuel.
+
+  Lemma call_ok_shape (c : N * bool) (r : result (option N)) :
+    call_ok c r -> r <> Block /\ r <> Panic /\ r <> OutOfFuel.
+  Proof.
+    intros [-> | [[_ ->] | [_ ->]]]; repeat split; discriminate.
+  Qed.
+
+  Theorem dict_never_blocks (ok : nat -> bool) :
+    forall (calls : list (N * bool)) (st : dstate),
+      locked st = false -> cache_inv (cache st) ->
+      let tr := dictionary_trace F loads_ok ok true st calls in
+      Forall step_ok tr /\
+      Forall2 call_ok calls (map snd tr) /\
+      locked (final_state st tr) = false /\
+      cache_inv (cache (final_state st tr)) /\
+      (forall k v, fsts_get (cache st) k = Some v ->
+                   fsts_get (cache (final_state st tr)) k = Some v).
+  Proof.
+    induction calls as [|[id hd] rest IH]; intros st Hl Hc; cbn [dictionary_trace].
+    - cbn. repeat split; auto.
+    - destruct (dictionary_gen F loads_ok ok true st id hd) as [st' r] eqn:E.
+      destruct (dictionary_call_spec ok st id hd Hl Hc st' r E)
+        as [Hl' [Hc' [Hr [Hmono _]]]].
+      destruct (IH st' Hl' Hc') as [H1 [H2 [H3 [H4 H5]]]].
+      cbn zeta in *. rewrite final_state_cons. cbn [fst snd map].
+      repeat split; auto.
+      + constructor; [|exact H1]. unfold step_ok. cbn [fst snd].
+        destruct (call_ok_shape _ _ Hr) as [Ha [Hb Hd]]. repeat split; auto.
+  Qed.
+
+  (* from the state of a fresh segment *)
+  Corollary dict_never_blocks_init (ok : nat -> bool) (calls : list (N * bool)) :
+    let tr := dictionary_trace F loads_ok ok true ds_init calls in
+    Forall step_ok tr /\ Forall2 call_ok calls (map snd tr) /\
+    locked (final_state ds_init tr) = false.
+  Proof.
+    destruct (dict_never_blocks ok calls ds_init) as [H1 [H2 [H3 _]]];
+      [reflexivity | constructor |].
+    cbn zeta. auto.
+  Qed.
+
+  (* once a call on a field has succeeded, every later call on it - after any
+     further calls, under any oracle - succeeds without a storage read *)
+  Theorem dict_cached_later (ok ok' : nat -> bool) (st st1 : dstate) (id : N) (r : result (option N))
+          (calls : list (N * bool)) :
+    locked st = false -> cache_inv (cache st) ->
+    dictionary_call F loads_ok ok st id true = (st1, r) -> r <> Err ->
+    let st2 := final_state st1 (dictionary_trace F loads_ok ok true st1 calls) in
+    dictionary_call F loads_ok ok' st2 id true = (st2, Ok (Some (F id))).
+  Proof.
+    intros Hl Hc E Hne.
+    destruct (dictionary_call_spec ok st id true Hl Hc st1 r E)
+      as [Hl1 [Hc1 [_ [_ [Hin _]]]]].
+    specialize (Hin eq_refl Hne).
+    destruct (dict_never_blocks ok calls st1 Hl1 Hc1) as [_ [_ [Hl2 [Hc2 Hmono]]]].
+    cbn zeta in *.
+    apply (cached_call_no_read ok' _ id (F id)); auto.
+  Qed.
+
+  (* ---- B3: the cache is observationally transparent when no read fails ---- *)
+
+  Definition pure_result (c : N * bool) : result (option N) :=
+    if snd c then (if loads_ok (fst c) then Ok (Some (F (fst c))) else Err) else Ok None.
+
+  Lemma dictionary_call_all_ok (ok : nat -> bool) (st : dstate) (id : N) (hd : bool) :
+    (forall k, ok k = true) ->
+    locked st = false -> cache_inv (cache st) ->
+    snd (dictionary_call F loads_ok ok st id hd) = pure_result (id, hd).
+  Proof.
+    intros Hok Hl Hc. unfold dictionary_call, dictionary_gen, pure_result. cbn [fst snd].
+    destruct hd; [|reflexivity].
+    rewrite Hl. cbn [ds_lock cache nreads].
+    destruct (fsts_get (cache st) id) as [v|] eqn:Eg.
+    - destruct (fsts_get_inv _ _ _ Hc Eg) as [-> ->]. reflexivity.
+    - rewrite !Hok. cbn [negb]. destruct (loads_ok id); reflexivity.
+  Qed.
+
+  Lemma results_all_ok (ok : nat -> bool) :
+    (forall k, ok k = true) ->
+    forall (calls : list (N * bool)) (st : dstate),
+      locked st = false -> cache_inv (cache st) ->
+      dictionary_results F loads_ok ok st calls = map pure_result calls.
+  Proof.
+    intros Hok. unfold dictionary_results.
+    induction calls as [|[id hd] rest IH]; intros st Hl Hc; cbn [dictionary_trace map]; [reflexivity|].
+    destruct (dictionary_gen F loads_ok ok true st id hd) as [st' r] eqn:E.
+    destruct (dictionary_call_spec ok st id hd Hl Hc st' r E) as [Hl' [Hc' _]].
+    cbn [map snd]. f_equal.
+    - pose proof (dictionary_call_all_ok ok st id hd Hok Hl Hc) as H.
+      unfold dictionary_call in H. rewrite E in H. exact H.
+    - apply IH; assumption.
+  Qed.
+
+  Lemma results_nocache_all_ok (ok : nat -> bool) :
+    (forall k, ok k = true) ->
+    forall (calls : list (N * bool)) (st : dstate),
+      locked st = false ->
+      dictionary_results_nocache F loads_ok ok st calls = map pure_result calls.
+  Proof.
+    intros Hok.
+    induction calls as [|[id hd] rest IH]; intros st Hl;
+      cbn [dictionary_results_nocache map]; [reflexivity|].
+    set (st0 := mkDS (locked st) [] (nreads st)).
+    assert (Hl0 : locked st0 = false) by exact Hl.
+    assert (Hc0 : cache_inv (cache st0)) by constructor.
+    destruct (dictionary_call F loads_ok ok st0 id hd) as [st' r] eqn:E.
+    destruct (dictionary_call_spec ok st0 id hd Hl0 Hc0 st' r E) as [Hl' _].
+    f_equal.
+    - pose proof (dictionary_call_all_ok ok st0 id hd Hok Hl0 Hc0) as H.
+      rewrite E in H. exact H.
+    - apply IH; assumption.
+  Qed.
+
+  Theorem cache_transparent (ok : nat -> bool) (calls : list (N * bool)) (st : dstate) :
+    (forall k, ok k = true) ->
+    locked st = false -> cache_inv (cache st) ->
+    dictionary_results F loads_ok ok st calls
+    = dictionary_results_nocache F loads_ok ok st calls.
+  Proof.
+    intros Hok Hl Hc.
+    rewrite (results_all_ok ok Hok calls st Hl Hc).
+    rewrite (results_nocache_all_ok ok Hok calls st Hl). reflexivity.
+  Qed.
+
+  Corollary cache_transparent_init (ok : nat -> bool) (calls : list (N * bool)) :
+    (forall k, ok k = true) ->
+    dictionary_results F loads_ok ok ds_init calls
+    = dictionary_results_nocache F loads_ok ok ds_init calls.
+  Proof.
+    intros Hok. apply cache_transparent; [exact Hok | reflexivity | constructor].
+  Qed.
+
+  (* ---- B2: the pinned version ---- *)
+
+  (* a failing first read (or a failing second read) leaves the mutex held: the
+     next call blocks.  The code of /repo returns the two errors and stays usable. *)
+  Theorem dictionary_prefix_blocks :
+    exists (ok : nat -> bool) (calls : list (N * bool)),
+      length calls = 2%nat /\
+      map snd (dictionary_trace F loads_ok ok false ds_init calls) = [Err; Block] /\
+      map (fun sr => locked (fst sr)) (dictionary_trace F loads_ok ok false ds_init calls)
+      = [true; true] /\
+      map snd (dictionary_trace F loads_ok ok true ds_init calls) = [Err; Err] /\
+      map (fun sr => locked (fst sr)) (dictionary_trace F loads_ok ok true ds_init calls)
+      = [false; false].
+  Proof.
+    exists (fun _ => false), [(0, true); (0, true)].
+    vm_compute. repeat split; reflexivity.
+  Qed.
+
+  Theorem dictionary_prefix_blocks_second_read :
+    exists (ok : nat -> bool) (calls : list (N * bool)),
+      map snd (dictionary_trace F loads_ok ok false ds_init calls) = [Err; Block] /\
+      map snd (dictionary_trace F loads_ok ok true ds_init calls) = [Err; Err].
+  Proof.
+    exists (fun k => Nat.eqb k 0 || Nat.eqb k 2), [(3, true); (4, true)].
+    vm_compute. split; reflexivity.
+  Qed.
+End DictionaryProofs.
+
+(* ------------------------------------------------------------------ *)
+(* examples for (B)                                                    *)
+(* ------------------------------------------------------------------ *)
+
+Module DictionaryModelExample.
+  Definition F (id : N) : N := 1000 + id.
+  Definition loads (id : N) : bool := negb (id =? 9).          (* field 9: corrupt FST bytes *)
+
+  (* reads 0,1 succeed (field 2 loads), reads 2.. fail *)
+  Definition ok (k : nat) : bool := Nat.ltb k 2.
+
+  Definition calls : list (N * bool) :=
+    [(2, true); (5, true); (2, true); (7, false); (5, true); (2, true)].
+
+  (* field 2 is loaded while the storage works, later calls on it succeed from
+     the cache although every read fails; field 5 keeps failing; field 7 has no FST *)
+  Example trace_results :
+    dictionary_results F loads ok ds_init calls
+    = [Ok (Some 1002); Err; Ok (Some 1002); Ok None; Err; Ok (Some 1002)].
+  Proof. vm_compute. reflexivity. Qed.
+
+  Example trace_states :
+    map fst (dictionary_trace F loads ok true ds_init calls)
+    = [ mkDS false [(2, 1002)] 2; mkDS false [(2, 1002)] 3; mkDS false [(2, 1002)] 3;
+        mkDS false [(2, 1002)] 3; mkDS false [(2, 1002)] 4; mkDS false [(2, 1002)] 4 ].
+  Proof. vm_compute. reflexivity. Qed.
+
+  (* the pinned version on the same calls: everything after the first failure blocks,
+     even the cached field *)
+  Example trace_prefix :
+    map snd (dictionary_trace F loads ok false ds_init calls)
+    = [Ok (Some 1002); Err; Block; Ok None; Block; Block].
+  Proof. vm_compute. reflexivity. Qed.
+
+  (* vellum.Load failing releases the mutex in both versions *)
+  Example load_failure :
+    map snd (dictionary_trace F loads (fun _ => true) false ds_init [(9, true); (9, true); (1, true)])
+    = [Err; Err; Ok (Some 1001)].
+  Proof. vm_compute. reflexivity. Qed.
+
+  (* all reads succeed: with and without cache the same answers *)
+  Example transparent :
+    dictionary_results F loads (fun _ => true) ds_init calls
+    = dictionary_results_nocache F loads (fun _ => true) ds_init calls /\
+    dictionary_results F loads (fun _ => true) ds_init calls
+    = [Ok (Some 1002); Ok (Some 1005); Ok (Some 1002); Ok None; Ok (Some 1005); Ok (Some 1002)].
+  Proof. vm_compute. split; reflexivity. Qed.
+
+  (* ... and not when reads fail: the cache then answers where the storage cannot *)
+  Example not_transparent_under_failures :
+    dictionary_results F loads ok ds_init calls
+    <> dictionary_results_nocache F loads ok ds_init calls.
+  Proof. vm_compute. discriminate. Qed.
+End DictionaryModelExample.
